@@ -30,7 +30,7 @@ class Facts:
             fren = normalize.detect_field_renames(normalize.adt_index(d), base["adts:" + cfg_id])
             if fren:
                 normalize.apply_field_renames(d, fren)
-                self.normalized += [("rename-field", n, k) for n, k in sorted(fren.items())]
+                self.normalized += [("rename-field", a + "." + n, k) for a, m in sorted(fren.items()) for n, k in sorted(m.items())]
         if base is not None and cfg_id in base:
             ren = normalize.detect_renames(normalize.index_of(d), base[cfg_id])
             if ren:
